@@ -298,6 +298,7 @@ AlgAsNamespace(v, prev) ==
                  ELSE Raw(prevcp, v, NoVal)                                                            \* :1204
     [] OTHER -> Rej                                                                                    \* :1177-1178 None
 
+EmptyPrev == [k |-> "emptyprev"]       \* a previous value that is an empty dict: not None, not a spec
 RECURSIVE AlgAdaptCls(_, _, _, _, _), AlgAdaptT(_, _, _, _), AlgClassType(_, _, _, _, _, _), AlgDiscard(_, _, _), AlgParseObject(_, _, _, _)
 \* discard_init_args_on_class_path_change, :1347-1369: on a class change keep only the previous init_args that the
 \* new class's parser has an action for and whose value checks (each one on its own, against an empty config)
@@ -336,7 +337,7 @@ AlgClassType(fam, c, ia, dk, prev, merge) ==
           IN IF a = Rej THEN Rej ELSE S(c, a, w)
 \* the subclass branch of adapt_typehints, :1052-1099
 AlgAdaptCls(fam, tc, v, prev, merge) ==
-  LET prev1 == IF ~IsSpec(prev) /\ ~Abstract(fam, tc) THEN S(tc, EF, EF) ELSE prev                     \* :1062-1064 implicit class_path
+  LET prev1 == IF ~IsSpec(prev) /\ prev # EmptyPrev /\ ~Abstract(fam, tc) THEN S(tc, EF, EF) ELSE prev   \* :1062-1064 implicit class_path (only when prev_val is None)
       raw == AlgAsNamespace(v, prev1)                                                                  \* :1065
   IN IF raw = Rej THEN Rej                                                                             \* :1066-1074
      ELSE LET c == Resolve(fam, tc, raw.cp)                                                            \* :1077
@@ -352,7 +353,9 @@ AlgAdaptT(fam, t, v, prev) ==
                         ELSE LET rs == [j \in 1..Len(v.l) |-> AlgAdaptCls(fam, t.c, v.l[j], IF prev.k = "list" /\ Len(prev.l) = Len(v.l) THEN prev.l[j] ELSE NoVal, FALSE)]
                              IN IF \E j \in 1..Len(rs) : rs[j] = Rej THEN Rej ELSE VList(rs)
     [] t.k = "dict"  -> IF v.k # "dict" THEN Rej                                                       \* :902-934 (prev by key)
-                        ELSE LET rs == [n \in DOMAIN v.d |-> AlgAdaptCls(fam, t.c, v.d[n], IF prev.k = "dict" /\ n \in DOMAIN prev.d THEN prev.d[n] ELSE NoVal, FALSE)]
+                        ELSE LET rs == [n \in DOMAIN v.d |-> AlgAdaptCls(fam, t.c, v.d[n],
+                                              IF prev.k = "dict" /\ DOMAIN prev.d = {} THEN EmptyPrev       \* deviation "emptydict": `if kwargs.get("prev_val"):` (:929) is false for {}, the element gets the EMPTY DICT as its previous value
+                                              ELSE IF prev.k = "dict" /\ n \in DOMAIN prev.d THEN prev.d[n] ELSE NoVal, FALSE)]
                              IN IF \E n \in DOMAIN rs : rs[n] = Rej THEN Rej ELSE VDict(rs)
     [] OTHER -> Rej
 
@@ -499,8 +502,16 @@ InvolvesDictKwargs == MentionsDK(cs.dflt) \/ \E j \in 1..Len(cs.items) : Mention
 EnvReqDeviation == cs.chan = "env" /\ cs.items # << >>
                    /\ EnvOnItsOwn(FamOf(cs), cs.T, AlgDefault0(FamOf(cs), cs.T, cs.dflt), ItemValue(cs.items[1]))
                    /\ RefOf(CodeDev).ok                                    \* the property accepts, the code rejects
-\* the code is the reference with the recorded deviations (dict_kwargs: stale, nokw; env: envreq) -- and nothing else
-AlgRefinesRef == Done => IF EnvReqDeviation THEN AlgParsed = Parsed(FALSE, Rej) ELSE AlgParsed = RefOf(CodeDev)
+\* Recorded deviation "emptydict": when the previous value of a Dict[str, C] parameter is the EMPTY dict, a key given in a short
+\* form (no class_path) is rejected, although with no previous value at all it denotes the declared class.
+RECURSIVE MentionsEmptyDict(_)
+MentionsEmptyDict(v) == CASE v.k = "dict" -> DOMAIN v.d = {} \/ \E n \in DOMAIN v.d : MentionsEmptyDict(v.d[n])
+                          [] v.k = "list" -> \E j \in 1..Len(v.l) : MentionsEmptyDict(v.l[j])
+                          [] OTHER        -> FALSE
+EmptyDictDeviation == /\ \E j \in 1..Len(cs.items) : MentionsEmptyDict(cs.items[j].v)
+                      /\ RefOf(CodeDev).ok /\ ~AlgParseD(FamOf(cs), cs.T, cs.items, cs.dflt, cs.chan).ok
+\* the code is the reference with the recorded deviations (dict_kwargs: stale, nokw; env: envreq; Dict: emptydict) -- and nothing else
+AlgRefinesRef == Done => IF EnvReqDeviation \/ EmptyDictDeviation THEN AlgParsed = Parsed(FALSE, Rej) ELSE AlgParsed = RefOf(CodeDev)
 \* ... and the deviations are invisible unless dict_kwargs are used
 DevOnlyDictKwargs == (Done /\ ~InvolvesDictKwargs) => RefOf(NoDev) = RefOf(CodeDev)
 MachineIsFold == Done => AlgParsed = AlgParseD(FamOf(cs), cs.T, cs.items, cs.dflt, cs.chan)
@@ -508,5 +519,5 @@ MachineIsFold == Done => AlgParsed = AlgParseD(FamOf(cs), cs.T, cs.items, cs.dfl
 AcceptedIsValid == (Done /\ ok = "accept") => AcceptSpec(FamOf(cs), CodeDev, cs.T, cur)
 LogRebuilds == (Done /\ ok = "accept") => LogOK(FamOf(cs), cur, log, Len(log), Built(FamOf(cs), cur.c))
 \* Normal(short form) = Normal(explicit form)
-ShortEqualsExplicit == (Done /\ cs.dflt = NoVal /\ RefOf(CodeDev).ok /\ RefOf(NoDev) = RefOf(CodeDev)) => AlgParse(FamOf(cs), cs.T, ExplicitItems(FamOf(cs), cs.T, cs.items)) = AlgParsed
+ShortEqualsExplicit == (Done /\ cs.dflt = NoVal /\ ~EmptyDictDeviation /\ RefOf(CodeDev).ok /\ RefOf(NoDev) = RefOf(CodeDev)) => AlgParse(FamOf(cs), cs.T, ExplicitItems(FamOf(cs), cs.T, cs.items)) = AlgParsed
 =============================================================================
